@@ -7,14 +7,16 @@ import LsModel.DriverCleaner
 import LsModel.DriverCfg
 import LsModel.DriverName
 import LsModel.DriverSweep
+import LsModel.DriverLoop
+import LsModel.DriverWire
 /- lsdriver: one operation per input line, exactly one canonical output line per operation. -/
 open Ls.Drv
 
 /-- stateless operations -/
-def handlers : List (String → List String → Option String) := [opHeader, opMerge, opC02, opStrat, opDup, opCfg, opName]
+def handlers : List (String → List String → Option String) := [opHeader, opMerge, opC02, opStrat, opDup, opCfg, opName, opWire]
 
 /-- operations that read or update the driver state -/
-def statefulHandlers : List (String → List String → DrvState → Option (DrvState × String)) := [opTxn, opSweep, opCleaner]
+def statefulHandlers : List (String → List String → DrvState → Option (DrvState × String)) := [opTxn, opSweep, opLoop, opCleaner]
 
 def step (st : DrvState) (line : String) : DrvState × String :=
   match (line.trimAscii.toString.split (· == ' ')).toList.map (·.toString) |>.filter (· ≠ "") with
